@@ -18,6 +18,9 @@ var c04dTemplates = []string{
 	// members reached through an anonymous table literal that a function returns
 	/* 4 */ "local function mk() return { p\x01 = 800, h\x02 = { d\x03 = \"s\" }, f\x01 = function(v) return v end } end\nlocal v = mk()\nq = v.p\x01\nr = v.h\x02.d\x03\nv.f\x01(1)\n",
 	/* 5 */ "function Mk() return { p\x01 = { 1, 2 }, h\x02 = nil } end\nlocal v = Mk()\nq = v.p\x01\nr = v.h\x02\n",
+	// members three and four levels deep, used and re-assigned
+	/* 6 */ "local t = { w\x01 = { x\x02 = { y\x03 = 1 } } }\nq = t.w\x01.x\x02.y\x03\nt.w\x01.x\x02.y\x03 = 2\nr = t.w\x01.x\x02\n",
+	/* 7 */ "Se = {}\nSe.w\x01 = { x\x02 = 1, h\x03 = 2 }\nSe.w\x01.x\x02 = Se.w\x01.h\x03\nprint(Se.w\x01.x\x02)\n",
 }
 
 func VerifRun_C04d() {
@@ -51,8 +54,10 @@ func VerifRun_C04d() {
 				// (when a member cannot be resolved the answer falls back to the variable it is reached
 				// through: that range names the variable, and must cover exactly the variable's name)
 				chain := map[string]bool{name: true}
-				for _, s := range vs.StrVec {
-					chain[s] = true
+				if ti < 6 { // (templates 6 and 7 only contain members that are declared: no fallback there)
+					for _, s := range vs.StrVec {
+						chain[s] = true
+					}
 				}
 				for _, d := range p.FindVarDefineInfo(file, &vs) {
 					if d.StrFile != file {
